@@ -303,6 +303,10 @@ def cross_node_case(draw):
     which = draw(st.sampled_from(["limit", "limit", "size"]))
     conv = lambda val, uu: fmt(val * F(u) / F(uu))
     lines = [f"limit float = {conv(first, ul)} {ul}", f"size float = {fmt(size)} {u}", f'  !condition ("{{?}} {op} {{?limit}}")']
+    if which == "limit" and draw(st.booleans()):
+        # the same node is mentioned again and compared with plain numbers (taken in its own unit): every mention sees
+        # the same value, whatever the comparison with the other node did before
+        lines[2] = f'  !condition ("{{?}} {op} {{?limit}} && {{?}} > {fmt(size * 0.5)} && {{?}} < {fmt(size * 2)}")'
     if which == "limit":
         change = f"limit = {conv(last, u2)} {u2}"
     else:
